@@ -29,7 +29,7 @@ def mc(ctx, path, invs=("StrictInDomain", "EnumInDomain")):
 def run(ctx):
     path, spec = specdata.write(ctx)
     mc(ctx, path)
-    events = ctl.set_events(spec) + ctl.history_probe_events(spec) + ctl.meta_events(spec) + ctl.attached_repeat_events(spec) + ctl.named_and_raw_events(spec)
+    events = ctl.set_events(spec) + ctl.history_probe_events(spec) + ctl.meta_events(spec) + ctl.attached_repeat_events(spec) + ctl.named_and_raw_events(spec) + ctl.first_use_events(spec)
     for e in events:
         ctx.count_case(json.dumps(e, sort_keys=True), nontrivial=e["op"] == "set" and (e["outcome"] != "ok" or e["got"] != e["old"]))
     # one trace per module type
